@@ -835,3 +835,88 @@ Print Assumptions C12_grid_final_phase_box_sizing_blind.
 Print Assumptions C12_grid_algorithm_box_sizing_blind_partial.
 Print Assumptions C12_grid_engine_premise_partial.
 Print Assumptions C12_grid_algorithm_example.
+
+(* ------------------------------------------------------------------------------------------------------------ *)
+(** * The COMPLETE engine, every node kind (wave 9g, notes/w9g.md)
+
+   `real_algo` / `real_memo` (Model/TaffyRoot.v: what `vh taffytree` runs against the implementation) dispatch on (display, has children)
+   over the block, flex and grid resumptions and compute_leaf_layout.  ONE style relation -- the rewrite `ts_tb` of Model/TaffyBoxSizing.v:
+   the block + flex part rewritten by `bf_to_border_box`, grid-only fields and the measure function kept -- implies each algorithm's own
+   relation (EngineBoxSizing.bb_rel through the block view, fbb_rel in either direction, gbb_rel through `to_gstyle`), so the dispatch is
+   box-sizing blind and `C12_engine` applies to trees that contain GRID containers.  The grid resumption here is the TOTAL one
+   (Model/GridAlgTotal.v): the panic test `grid_no_panic` takes the same value on both sides (Proofs/TaffyBoxSizing.v grid_no_panic_wrel).
+   PARTIAL only through the class `ts_eligibleb`: the class of C12_leaf, flex_basis neither a percentage nor a length (a length's rewrite
+   depends on the parent's direction: as in C12_blockflex_engine_instance_partial), and NOT `item_is_replaced` (the known finding
+   grid-compressible-replaced-max-size, C12_minimum_contribution_refuted).  Nodes outside the class are allowed anywhere in the tree: they
+   are left alone. *)
+From TV Require Model.TaffyEngine Model.TaffyRoot Model.TaffyBoxSizing Model.TaffyBoxSizingExample Model.GridAlgTotal.
+From TV Require Proofs.TaffyBoxSizing.
+Section AllKinds.
+  Import TV.Model.Common TV.Model.Leaf TV.Model.Scale TV.Model.FlexAlgBase TV.Model.FlexAlgRel TV.Model.FlexBoxSizing TV.Model.BlockFlexEngine.
+  Import TV.Model.GridAlgBase TV.Model.GridAlg TV.Model.GridAlgTotal TV.Model.GridAlgRel.
+  Import TV.Model.Engine TV.Model.EngineRel TV.Model.TaffyEngine TV.Model.TaffyRoot TV.Model.TaffyBoxSizing TV.Model.TaffyBoxSizingExample.
+  Import TV.Proofs.TaffyBoxSizing.
+  Import TV.Model.TaffyExample.
+
+  (* the rewrite of a node is the block+flex rewrite in the block / flex view and the grid rewrite in the grid view; the class is inside
+     both classes *)
+  Theorem C12_taffy_rewrite_views :
+    forall s : TStyle XQ,
+      ts_bf (ts_tb s) = BlockFlexK.bf_to_border_box (ts_bf s) /\ to_gstyle (ts_tb s) = g_to_border_box (to_gstyle s) /\
+      (ts_eligibleb s = true -> f_eligible_anyb (bf_flex (ts_bf s)) = true /\ g_eligibleb (to_gstyle s) = true).
+  Proof.
+    intros s. split; [reflexivity|]. split; [reflexivity|]. intros E.
+    split; [exact (proj1 (ts_elig_parts s E))|exact (to_gstyle_eligible s E)].
+  Qed.
+
+  (* the total grid resumption (the one the engine runs) is blind: the panic test included *)
+  Theorem C12_grid_total_algorithm_box_sizing_blind_partial :
+    forall s s' st st' i i',
+      gbb_rel s s' -> Forall2 gbb_rel st st' -> fin_rel 1 i i' ->
+      grid_no_panic s' st' i' = grid_no_panic s st i /\
+      AlgRel (FIn XQ) (LayoutOutput XQ) (FLay XQ) (fin_rel 1) (output_rel 1) (flay_rel 1) (grid_alg_total s st i) (grid_alg_total s' st' i').
+  Proof. exact grid_total_box_sizing_blind. Qed.
+
+  (* the dispatch: the premise of C12_engine for the complete algorithm, no premise on any node kind *)
+  Theorem C12_taffy_algorithm_box_sizing_blind_partial :
+    BoxSizingBlind (TStyle XQ) (FIn XQ) (LayoutOutput XQ) (FLay XQ) ts_ok ts_tb ts_elig (fin_rel 1) (output_rel 1) (flay_rel 1) real_algo.
+  Proof. exact real_algo_box_sizing_blind. Qed.
+
+  (* the conclusion of C12_engine for the complete engine: ANY two related trees (arbitrary related caches and stored layouts), inputs equal
+     as numbers: both runs fail (fuel) or both succeed with outputs, cache entries and stored layouts of the whole tree equal as numbers *)
+  Theorem C12_taffy_engine_all_kinds_partial :
+    forall f t t' i i',
+      trel (TStyle XQ) (FIn XQ) (LayoutOutput XQ) (FLay XQ) tnode_bb (fin_rel 1) (output_rel 1) (flay_rel 1) t t' -> fin_rel 1 i i' ->
+      oprel (res_rel (TStyle XQ) (FIn XQ) (LayoutOutput XQ) (FLay XQ) tnode_bb (fin_rel 1) (output_rel 1) (flay_rel 1))
+            (real_memo Num.eqb f t i) (real_memo Num.eqb f t' i').
+  Proof. exact real_engine_box_sizing. Qed.
+
+  (* every subset of the eligible nodes of a fresh tree rewritten (ts_to_border_box at the paths selected by `w`), the SAME input: the run
+     succeeds iff the original does, the root outputs and the stored layouts of ALL nodes are equal as numbers *)
+  Theorem C12_taffy_engine_all_kinds_rewritten_layouts_partial :
+    forall f (t : sk (TStyle XQ)) (w : list nat -> bool) i o T1,
+      sk_all (TStyle XQ) ts_ok t -> real_memo Num.eqb f (taffy_fresh t) i = Some (o, T1) ->
+      exists o' T1',
+        real_memo Num.eqb f (taffy_fresh (sk_map_where (TStyle XQ) ts_to_border_box w t)) i = Some (o', T1') /\ output_rel 1 o o' /\
+        Forall2 (flay_rel 1) (lays (TStyle XQ) (FIn XQ) (LayoutOutput XQ) (FLay XQ) T1) (lays (TStyle XQ) (FIn XQ) (LayoutOutput XQ) (FLay XQ) T1').
+  Proof. exact real_engine_rewritten_layouts. Qed.
+
+  (* non-vacuity, computed (Model/TaffyBoxSizingExample.v): block root (width 200) > flex row (2 leaves), grid (columns 50px 50px, width 150;
+     a 20 x 10 leaf and a text leaf), an absolute leaf; every node content-box, padding 2, border 1.  The grid container and the grid item are
+     in the class and the rewrite changes them (150 -> 156, 20 x 10 -> 26 x 16); all nodes / the grid container and its item / only the root
+     rewritten: the same root output and stored layouts; the comparison detects a 21-wide grid item *)
+  Example C12_taffy_engine_all_kinds_example :
+    cb_probe cb_tree = Some (ContentBox, Length (xq 150), ContentBox, mkSize (Length (xq 20)) (Length (xq 10))) /\
+    cb_probe (cb_rewrite cb_grid_and_item) = Some (BorderBox, Length (xq 156), BorderBox, mkSize (Length (xq 26)) (Length (xq 16))) /\
+    (match cb_run cb_tree with Some _ => true | None => false end) = true /\
+    cb_same cb_tree (cb_rewrite cb_all) = true /\ cb_same cb_tree (cb_rewrite cb_grid_and_item) = true /\
+    cb_same cb_tree (cb_rewrite cb_root_only) = true /\ cb_same cb_tree cb_other = false.
+  Proof. repeat split; vm_compute; reflexivity. Qed.
+End AllKinds.
+
+Print Assumptions C12_taffy_rewrite_views.
+Print Assumptions C12_grid_total_algorithm_box_sizing_blind_partial.
+Print Assumptions C12_taffy_algorithm_box_sizing_blind_partial.
+Print Assumptions C12_taffy_engine_all_kinds_partial.
+Print Assumptions C12_taffy_engine_all_kinds_rewritten_layouts_partial.
+Print Assumptions C12_taffy_engine_all_kinds_example.
